@@ -215,3 +215,25 @@ TARGETS = {
     "codebasin.finder:ParserState.associate.<locals>.associator": _comp,
     "codebasin.preprocessor:Node.visit": Traversal(),
 }
+
+
+# ---- recorded findings reported by defect hunting (oracle gcc -E) ------------------------------------------------------------
+from native import recorded as _R      # noqa: E402
+
+
+def _one(text, defines, want_used, want_unused, suffix=".c"):
+    import os
+    with _R.tree({"t" + suffix: text}) as root:
+        used = _R.used_lines(root, [{"file": os.path.join(root, "t" + suffix), "defines": defines, "include_paths": [], "include_files": []}])["t" + suffix]
+    ok = all(x in used for x in want_used) and not any(x in used for x in want_unused)
+    return None if ok else (f"lines {want_used} used, {want_unused} unused", used)
+
+
+TARGETS["codebasin.preprocessor:DirectiveParser.parse#recorded-findings"] = _R.Exhibits([
+    ("composition:elifdef-is-not-a-chain-member", "#ifdef A / int a; / #elifdef B / int b; / #else / int c; / #endif with -DB (C23, accepted by gcc 12)",
+     lambda: _one("#ifdef A\nint a;\n#elifdef B\nint b;\n#else\nint c;\n#endif\n", ["B"], [4], [2, 6])),
+    ("composition:true-is-0-in-a-c++-condition", "t.cpp: #if USE_GPU / int gpu; / #else / int cpu; / #endif with -DUSE_GPU=true (g++ keeps line 2)",
+     lambda: _one("#if USE_GPU\nint gpu;\n#else\nint cpu;\n#endif\n", ["USE_GPU=true"], [2], [4], ".cpp")),
+    ("composition:macro-chain-deeper-than-the-expansion-limit-evaluates-to-0", "#define M0 M1 ... #define M198 1 ; #if M0",
+     lambda: _one("".join(f"#define M{i} M{i+1}\n" for i in range(198)) + "#define M198 1\n#if M0\nint yes;\n#else\nint no;\n#endif\n", [], [201], [203])),
+])
